@@ -16,27 +16,45 @@ import (
 func edgeFacts(b *ssa.BasicBlock, succ int) []string {
 	var out []string
 	for _, a := range edgeAtoms(b, succ) {
-		c, idx := callOf(a.V)
-		if c == nil {
-			continue
-		}
-		key := callKey(c)
-		if key == "" {
-			continue
-		}
-		switch {
-		case a.Nil == 1 && isErrorType(a.V.Type()):
-			out = append(out, "ok:"+key)
-		case a.Nil == -1 && isErrorType(a.V.Type()):
-			out = append(out, "fail:"+key)
-		case a.True == 1 && idx < 0:
-			out = append(out, "ok:"+key)
-		case a.True == -1 && idx < 0:
-			out = append(out, "fail:"+key)
-		case a.True == 1:
-			out = append(out, fmt.Sprintf("true#%d:%s", idx, key))
-		case a.True == -1:
-			out = append(out, fmt.Sprintf("false#%d:%s", idx, key))
+		out = append(out, atomFacts(a)...)
+	}
+	return out
+}
+
+// atomFacts: the gate facts one condition atom establishes, including the
+// success summary of a module callee.
+func atomFacts(a condAtom) []string {
+	var out []string
+	c, idx := callOf(a.V)
+	if c == nil {
+		return nil
+	}
+	key := callKey(c)
+	if key == "" {
+		return nil
+	}
+	success := false
+	switch {
+	case a.Nil == 1 && isErrorType(a.V.Type()):
+		out = append(out, "ok:"+key)
+		success = true
+	case a.Nil == -1 && isErrorType(a.V.Type()):
+		out = append(out, "fail:"+key)
+	case a.True == 1 && idx < 0:
+		out = append(out, "ok:"+key)
+		success = true
+	case a.True == -1 && idx < 0:
+		out = append(out, "fail:"+key)
+	case a.True == 1:
+		out = append(out, fmt.Sprintf("true#%d:%s", idx, key))
+	case a.True == -1:
+		out = append(out, fmt.Sprintf("false#%d:%s", idx, key))
+	}
+	if success {
+		if cal := staticCallee(c); cal != nil && inModule(cal) && cal.Blocks != nil {
+			for _, s := range okSummary(cal).list() {
+				out = append(out, s)
+			}
 		}
 	}
 	return out
@@ -44,6 +62,14 @@ func edgeFacts(b *ssa.BasicBlock, succ int) []string {
 
 // gateFlow: must-analysis of "this call has succeeded on every path to here".
 func gateFlow(fn *ssa.Function, entry facts) *mustResult {
+	if ctx := entryContext(fn); len(ctx) > 0 {
+		entry = entry.with(ctx.list()...)
+	}
+	return gateFlowRaw(fn, entry)
+}
+
+// gateFlowRaw: without the interprocedural entry context.
+func gateFlowRaw(fn *ssa.Function, entry facts) *mustResult {
 	return mustFlow(fn, entry, nil, func(f facts, b *ssa.BasicBlock, succ int) facts {
 		ef := edgeFacts(b, succ)
 		if len(ef) == 0 {
